@@ -30,7 +30,7 @@ Inductive stmt :=
 | SSkip.
 
 Definition upd_var (en : env) (x : string) (t : ty) (v : value) : env :=
-  {| vars := fun y u => if String.eqb y x && ty_eqb u t then v else vars en y u; funs := funs en |}.
+  {| vars := fun y u => if String.eqb y x && ty_eqb u t then v else vars en y u; funs := funs en; nilp := nilp en |}.
 
 (* a left operand with its index evaluated *)
 Inductive loc := LocVar (x : string) (t : ty) | LocIdx (x : string) (k : Z).
